@@ -38,6 +38,7 @@ type Fn struct {
 	Depth  int // main = 0
 	Parent int
 	Named  bool // named result
+	Group  bool // two named results declared as one group: (res, aux int)
 	Stmts  []*Stmt
 	// mayPanic: a call of the function may end in a panic (conservative)
 	mayPanic bool
@@ -361,6 +362,9 @@ func (g *gen) genFn(fn *Fn) {
 		// a function without named results that recovers returns zero values
 		g.excl(kStaleResult)
 		fn.Named = true
+	}
+	if fn.Named {
+		fn.Group = g.flip("grouped-results")
 	}
 }
 
